@@ -6,7 +6,7 @@ PROPERTY = 'C23'
 LEVEL = 'model_checking'
 BOUNDS = {'quick': dict(fields='p in {3,5}: operands of degree <= 2 (ring ops) / <= 2 by <= 1..2 (division family); p=7 degree <= 1', powmod='exponents -1..4',
                         binary='p=2: all pairs of polynomials of degree <= 3 (value forks), BinaryPolynomial vs a list-based Polynomial subclass with p=2'),
-          'thorough': dict(fields='p in {3,5,7}, degree <= 3 by <= 2', binary='degree <= 4')}
+          'thorough': dict(fields='p in {3,5,7}, degree <= 3 by <= 2 for ring laws and divmod; gcd / invert with degree sum <= 3 for p >= 5; powmod with base degree <= 1 for p >= 5 and <= 2 for p = 3', binary='degree <= 4')}
 OUTSIDE = ['degrees and primes beyond the bounds', 'string parsing/printing (from_terms/to_terms)', 'performance-oriented paths for large p']
 ASSUMPTIONS = ['gmpy.invert correct (C25)']
 LEVEL_TEXT = ('Bounded symbolic model checking of the real list-based polynomial arithmetic: coefficients are solver variables, the explorer forks where the code tests a coefficient '
@@ -258,9 +258,9 @@ def instances(tier):
         for da in range(-1, D + 1):
             for db in range(0, min(D, 2) + 1):
                 for what in ('divmod', 'gcd', 'invert', 'powmod'):
-                    if what in ('gcd', 'invert', 'powmod') and (da < 0 or (p == 5 and da + db > 3)):
+                    if what in ('gcd', 'invert', 'powmod') and (da < 0 or (p >= 5 and da + db > 3)):
                         continue
-                    if what == 'powmod' and (db < 1 or (p == 5 and da > 1)):
+                    if what == 'powmod' and (db < 1 or (p >= 5 and da > 1) or da > 2):
                         continue
                     out.append(Inst(f'{what}[p={p},deg {da}/{db}]', h_div, dict(p=p, da=da, db=db, what=what), **T))
     # gcd / gcdext with a zero operand (second or both): the result must still be the monic associate
